@@ -100,7 +100,8 @@ func (v *memoryView) formatMemLine(ln memLine) string {
 	var sb strings.Builder
 
 	i := 0
-	for a := ln.addr; a < ln.addr+bytesPerLine; a++ {
+	// (a distance comparison: the end of the last window of the address space is zero)
+	for a := ln.addr; a-ln.addr < bytesPerLine; a++ {
 		if a != ln.addr {
 			sb.WriteByte(' ')
 		}
